@@ -21,6 +21,8 @@ use std::collections::{BTreeMap, BTreeSet};
 type Bytes = Vec<u8>;
 const CALL: &str = "return redis.call(unpack(ARGV))";
 const PCALL: &str = "return redis.pcall(unpack(ARGV))";
+/// a failing redis.call in the middle: the script must stop there
+const ABORT: &str = "redis.call('SET','c12:before','1') redis.call(unpack(ARGV)) redis.call('SET','c12:after','1') return 'end'";
 pub const FORMS: [&str; 3] = ["call", "pcall", "evalsha"];
 pub const SPECS: [&str; 14] = ["c01-core", "c03-list", "c03-set", "c03-hash", "c03-mixed", "c04-cmds", "c15-stream", "c16-core", "c02-string", "c02-list", "c02-zset", "c02-stream", "c01-full", "c16-full"];
 
@@ -193,6 +195,11 @@ fn run_once(w: &mut Box<dyn World>, hist: &[usize], cmd: &[Bytes], form: Option<
     }
     let req: Vec<Bytes> = match form {
         None => cmd.to_vec(),
+        Some("abort") => {
+            let mut v = vec![b("EVAL"), b(ABORT), b("0")];
+            v.extend(cmd.iter().cloned());
+            v
+        }
         Some("pcall") => {
             let mut v = vec![b("EVAL"), b(PCALL), b("0")];
             v.extend(cmd.iter().cloned());
@@ -332,6 +339,37 @@ fn differential(spec: &str, depth: usize, part: u64, parts: u64, forms: &[&str],
                 // a command with an effect makes the comparison of datasets non-trivial
                 direct.state.clone()
             };
+            // a command that fails directly must abort a script that calls it with redis.call in the middle
+            // (whatever way the failure reaches the script engine: a seeded change that let failures delivered as
+            // error replies pass went unnoticed while only 'return redis.call(...)' was compared)
+            if d_reply.is_err() && forms.contains(&"call") {
+                match run_once(&mut w, h, cmd, Some("abort")) {
+                    Ok(s) => {
+                        runs += 1;
+                        let steps: Vec<String> = h.iter().map(|a| w.describe(*a)).collect();
+                        let after = w.raw_call(&[b("EXISTS"), b("c12:after")]).unwrap_or(R::Nil);
+                        let before = w.raw_call(&[b("EXISTS"), b("c12:before")]).unwrap_or(R::Nil);
+                        let mut problems: Vec<&str> = Vec::new();
+                        match &s.reply {
+                            Ok(r) if r.is_err() => {}
+                            Ok(_) => problems.push("script-continued-after-a-failing-redis.call"),
+                            Err(_) => problems.push("no-reply-to-the-script"),
+                        }
+                        if after != R::Int(0) {
+                            problems.push("script-continued-after-a-failing-redis.call");
+                        }
+                        if before != R::Int(1) {
+                            problems.push("effect-before-the-failing-call-lost");
+                        }
+                        problems.dedup();
+                        for pr in problems {
+                            recs.push(json!({"spec": spec, "history": h, "steps": steps, "command": resp::show_cmd(cmd), "form": "call-in-the-middle", "class": cmd_class(cmd), "problem": pr,
+                                "detail": {"direct": resp::show(&d_reply), "script": s.reply.as_ref().map(resp::show).unwrap_or_else(|e| e.clone())}}));
+                        }
+                    }
+                    Err(e) => errors.push(format!("{} {:?} {} via abort: {}", spec, h, resp::show_cmd(cmd), e)),
+                }
+            }
             for form in forms.iter() {
                 let s = match run_once(&mut w, h, cmd, Some(form)) {
                     Ok(r) => r,
@@ -1135,7 +1173,7 @@ pub fn parent(tier: &str) -> i32 {
         "states": (states + schedules).max(1), "transitions": (runs + observations + contract_cases).max(1), "traces_validated_against_impl": cases + schedules,
         "samples": [{"differential": "at the state after each history of the alphabet, command X is sent directly and, on a fresh replay, as EVAL 'return redis.call(unpack(ARGV))' 0 X / redis.pcall / EVALSHA"}, {"outcome_pairs(direct:script)": outcomes.iter().take(40).cloned().collect::<Vec<_>>()}],
         "exhaustive": true, "differential_cases": cases, "differential_runs": runs, "contract_probes": contract_cases, "atomicity_schedules": schedules, "atomicity_observations": observations, "cases_per_alphabet": per_spec,
-        "explanation": "states = distinct dataset states at which the whole alphabet was compared + atomicity schedules; transitions = executions on the real server. (a) for every alphabet of the C01/C02/C03/C04/C15/C16 searches (every data command with its argument classes incl. wrong types, bad arguments, binary values; mutators and state-dependent probes) and every history up to the depth (quick 1; thorough 1, and 2 for the string-core, list, set, hash, mixed-type, stream and consumer-group alphabets): direct vs redis.call vs redis.pcall vs EVALSHA on fresh replays of the same history; reply equal after the standard RESP->Lua->RESP conversion (nil forms collapse, error texts not compared, integers beyond 2^53 don't care, wall-clock numbers relative to the epoch, replies without a defined order compared as multisets, replies of SPOP/SRANDMEMBER/RANDOMKEY by shape), raw dataset equal. (b) KEYS/ARGV/stored/read-back byte for byte for every byte value and every byte pair (quick: pairs with 9 lead bytes, one per class); 53 return shapes with EVALSHA = EVAL; 6 kinds of failing call x call/pcall (error reply, effects before persist, pcall continues); 34 commands a script must not reach x call/pcall (refused, connection and server state unchanged, connection still answers); the script's database (3 databases x 3 forms: writes land and reads look in the selected database); a walk of _G against the list of names that reach the file system or the process (io, os, package, require, dofile, loadfile, debug, ffi, jit) and 13 direct escapes. (c) all round schedules (quick 3, thorough 4 rounds; per round: next chunk of the script or not, reader as script / as two plain reads / none, writer or not) of a three-call script, of one failing after two calls and of one with a failing pcall, whole and fragmented.",
+        "explanation": "states = distinct dataset states at which the whole alphabet was compared + atomicity schedules; transitions = executions on the real server. (a) for every alphabet of the C01/C02/C03/C04/C15/C16 searches (every data command with its argument classes incl. wrong types, bad arguments, binary values; mutators and state-dependent probes) and every history up to the depth (quick 1; thorough 1, and 2 for the string-core, list, set, hash, mixed-type, stream and consumer-group alphabets): direct vs redis.call vs redis.pcall vs EVALSHA on fresh replays of the same history; a command that fails directly must also abort a script that calls it in the middle (error reply, nothing after it executed, the write before it kept); reply equal after the standard RESP->Lua->RESP conversion (nil forms collapse, error texts not compared, integers beyond 2^53 don't care, wall-clock numbers relative to the epoch, replies without a defined order compared as multisets, replies of SPOP/SRANDMEMBER/RANDOMKEY by shape), raw dataset equal. (b) KEYS/ARGV/stored/read-back byte for byte for every byte value and every byte pair (quick: pairs with 9 lead bytes, one per class); 53 return shapes with EVALSHA = EVAL; 6 kinds of failing call x call/pcall (error reply, effects before persist, pcall continues); 34 commands a script must not reach x call/pcall (refused, connection and server state unchanged, connection still answers); the script's database (3 databases x 3 forms: writes land and reads look in the selected database); a walk of _G against the list of names that reach the file system or the process (io, os, package, require, dofile, loadfile, debug, ffi, jit) and 13 direct escapes. (c) all round schedules (quick 3, thorough 4 rounds; per round: next chunk of the script or not, reader as script / as two plain reads / none, writer or not) of a three-call script, of one failing after two calls and of one with a failing pcall, whole and fragmented.",
     });
     report.assumptions = vec![
         "the standard conversion: integer->integer, bulk->bulk, nil and nil-array->nil, status->status, array element-wise, error->error reply (texts not compared); Lua numbers are doubles".into(),
